@@ -179,6 +179,14 @@ func genMetricsHistory(r *rand.Rand, quick bool) *plan.Plan {
 			p.Incs = append(p.Incs, inc)
 			inc = plan.Incarnation{Boot: "full", SchedSeed: r.Uint64()>>11 | 1}
 			inc.Ops = append(inc.Ops, queries()...)
+		case x < 9:
+			// the process is killed a minute after the last datapoint was accepted: the 1 s WAL timers and the 60 s
+			// tags-tree timer have run, so every accepted datapoint is in a WAL or block file and every series'
+			// tags are on disk; start-up recovery must bring all of them back (also the blocks rotated earlier)
+			inc.Ops = append(inc.Ops, plan.Op{Kind: "advance", DurMs: 61_000})
+			p.Incs = append(p.Incs, inc)
+			inc = plan.Incarnation{Boot: "full", SchedSeed: r.Uint64()>>11 | 1}
+			inc.Ops = append(inc.Ops, queries()...)
 		}
 	}
 	inc.Ops = append(inc.Ops, queries()...)
@@ -405,7 +413,7 @@ func init() {
 	register(&Check{
 		ID:    "C08",
 		Level: "exploration",
-		Rule: "each case is one seeded metrics history: 2-11 series (tag sets chosen to collide under naive concatenation, values containing 'NaN', unicode, separators) receive adversarial float streams (neighbouring mantissas, +-0, subnormals, extremes, repeats, single-bit flips) at irregular timestamps around the delta-of-delta boundaries and with hour/day gaps; between rounds the fake clock passes the WAL (1 s), rotation (10 s, with small block/segment size knobs), tags-tree (60 s) or block-flush (2 h) timers, or the node restarts gracefully; after each step a 1-second-step selector per metric is compared with the series model bit by bit. distinct = distinct (operation shape, knobs); non-trivial = at least one rotation/flush timer or restart happened",
+		Rule: "each case is one seeded metrics history: 2-11 series (tag sets chosen to collide under naive concatenation, values containing 'NaN', unicode, separators) receive adversarial float streams (neighbouring mantissas, +-0, subnormals, extremes, repeats, single-bit flips) at irregular timestamps around the delta-of-delta boundaries and with hour/day gaps; between rounds the fake clock passes the WAL (1 s), rotation (10 s, with small block/segment size knobs), tags-tree (60 s) or block-flush (2 h) timers, or the node restarts (gracefully, or killed a minute after the last accepted datapoint); after each step a 1-second-step selector per metric is compared with the series model bit by bit. distinct = distinct (operation shape, knobs); non-trivial = at least one rotation/flush timer or restart happened",
 		Run: func(c *Ctx) {
 			n := 100
 			if !c.Quick() {
